@@ -274,9 +274,9 @@ func c06Body(k int, tomb bool, under ...bool) mc.Body {
 			if state[e] == 0 || e.c == "R" {
 				continue
 			}
-			back := 1.0 // state now deleted -> originally live -> send tombstone 0
+			back := 1.0 // an edge that is live now was deleted originally: delete it again
 			if state[e] == 2 {
-				back = 0
+				back = 2 // an edge that is deleted now was live originally: restored by counting the tombstone up to an even value (2), as the point-level convention has it
 			}
 			if err := client.SendEdgePoints(inst.Nc, id(e.c), id(e.p), data.Points{{Type: data.PointTypeTombstone, Value: back, Time: tick()}}, true); err != nil {
 				return mc.Outcome{Violation: fmt.Sprintf("tombstone flipped back on %s>%s refused: %v", e.p, e.c, err), Key: "legal-write-refused"}
